@@ -37,3 +37,28 @@ def c03():
         if r2.obligations:
             out.append(r2)
     return out
+
+
+PURE_CALLEES = [('src/mbi/graphical_model.py', 'GraphicalModel.belief_propagation'), ('src/mbi/graphical_model.py', 'GraphicalModel.mle'),
+                ('src/mbi/inference.py', 'FactoredInference._marginal_loss'), ('src/mbi/inference.py', 'FactoredInference._lipschitz'),
+                ('src/mbi/clique_vector.py', 'CliqueVector.dot')]
+
+
+def purity_reports(items=PURE_CALLEES):
+    """The callees the solver contracts treat as deterministic functions of their arguments and the receiver's state (typed
+    uninterpreted functions): no randomness source, no hidden state written - decided on their text (pv/vc/frames.py: purity)."""
+    import time
+    from ..vc import frames
+    from .. import frontend
+    reps = []
+    for rel, q in items:
+        r = deductive.FunctionReport(rel, q + ' [deterministic, no hidden state]')
+        t0 = time.time()
+        try:
+            r.obligations, r.sha = frames.purity(rel, q)
+        except frontend.MissingAnchor as e:
+            r.undecided = 'anchor missing: %s' % e
+        r.vacuity = []
+        r.seconds = time.time() - t0
+        reps.append(r)
+    return reps
